@@ -103,19 +103,24 @@ class Rational:
         return (n / d).astype(complex)
 
 
-def knot_vector(rng, n, lo, hi):
+def knot_vector(rng, n, lo, hi, minfrac=0.02):
     """n ascending knots spanning exactly [lo, hi], no two closer than
-    2 % of the mean spacing"""
+    minfrac of the mean spacing (0.02 where only exactness / order /
+    ranges are judged; 0.2 where interpolated values are compared with a
+    law: the rounding error of any interpolation scheme grows with the ratio
+    of the largest to the smallest knot distance)"""
     if n == 1:
         return np.array([lo])
     if n == 2:
         return np.array([lo, hi])
-    for _ in range(100):
+    for _ in range(400):
         inner = np.sort(rng.uniform(lo, hi, n - 2))
         k = np.concatenate([[lo], inner, [hi]])
-        if np.min(np.diff(k)) >= 0.02 * (hi - lo) / n:
+        if np.min(np.diff(k)) >= minfrac * (hi - lo) / (n - 1):
             return k
-    return np.linspace(lo, hi, n)
+    k = np.linspace(lo, hi, n)
+    k[1:-1] += rng.uniform(-0.3, 0.3, n - 2) * (hi - lo) / (n - 1)
+    return k
 
 
 def pick_n(rng, k):
@@ -170,7 +175,7 @@ def work_pv(chunk_id, payload):
             scale = 10.0 ** rng.uniform(-3, 10)
             lo = scale * rng.uniform(1.0, 3.0)
             hi = lo * rng.uniform(1.3, 8.0) if n > 1 else lo
-            knots = knot_vector(rng, n, lo, hi)
+            knots = knot_vector(rng, n, lo, hi, 0.02 if j == 0 else 0.2)
             if j == 0:
                 vals = crand(rng, n) * 10.0 ** rng.uniform(-2, 2)
                 law = None
@@ -384,7 +389,7 @@ class SmoothScenario(calgen.Scenario):
         calgen.Scenario.__init__(self, ctype, r, c, F, rng, fmin=fmin,
                                  fmax=fmax, form="m")
         if F >= 2:
-            self.freqs = knot_vector(rng, F, fmin, fmax)
+            self.freqs = knot_vector(rng, F, fmin, fmax, 0.2)
         self.net = SmoothNet(ctype, r, c, rng, self.freqs)
         self.enet = [self.net.at(f) for f in self.freqs]
 
@@ -404,7 +409,7 @@ def own_grid_params(sc, rng, s, uid):
             n = 2 if rng.random() < 0.3 else int(rng.integers(2, 13))
             lo = fmin * (1.0 if rng.random() < 0.3 else rng.uniform(0.6, 1.0))
             hi = fmax * (1.0 if rng.random() < 0.3 else rng.uniform(1.0, 1.6))
-            knots = knot_vector(rng, n, lo, hi)
+            knots = knot_vector(rng, n, lo, hi, 0.2)
             law = Rational(rng, ORDERS[min(n, MAX_M)], lo, hi, 0.0, 1.0)
             sc_ = 0.7 / float(np.max(np.abs(law(np.linspace(lo, hi, 50)))))
             prm.kind = "vector"
@@ -702,9 +707,28 @@ def work_rg(chunk_id, payload):
             kind, lo, hi = range_case(rng, fmin, fmax, n)
             knots = knot_vector(rng, n, lo, hi)
             s.rvec("pf%d" % i, knots)
-            s.cvec("pg%d" % i, crand(rng, n) * 0.5)
-            s.op("p%d=vnacal_make_vector_parameter $vc @pf%d %d @pg%d" % (
-                i, i, n, i))
+            flavour = "vector"
+            if rng.random() < 0.4 and (n == 1 or
+                                       float(np.min(np.diff(knots))) >= 1e-2):
+                # correlated parameter: only its sigma frequency vector
+                # limits the range (the correlate is a scalar or an unknown
+                # with a scalar guess); one sigma value = no frequency grid
+                flavour = "correlated"
+                s.rvec("ps%d" % i, rng.uniform(0.01, 0.1, n))
+                s.op("q%d=vnacal_make_scalar_parameter $vc %s" % (
+                    i, R.cx(crand(rng) * 0.5)))
+                other = "$q%d" % i
+                if rng.random() < 0.5:
+                    s.op("u%d=vnacal_make_unknown_parameter $vc $q%d" % (i, i))
+                    other = "$u%d" % i
+                lnp = s.op("p%d=vnacal_make_correlated_parameter $vc %s @pf%d "
+                           "%d @ps%d" % (i, other, i, n, i))
+                if n == 1:
+                    kind = "cover"
+            else:
+                s.cvec("pg%d" % i, crand(rng, n) * 0.5)
+                lnp = s.op("p%d=vnacal_make_vector_parameter $vc @pf%d %d "
+                           "@pg%d" % (i, i, n, i))
             entry = entries[int(rng.integers(0, len(entries)))]
             column_type = ctype in physics.COLUMN_TYPES
             s.cmat("m%d" % i, [[0.1 * crand(rng) for _ in range(F)]
@@ -739,10 +763,10 @@ def work_rg(chunk_id, payload):
                 ln = s.op("vnacal_new_add_%s $vn %s @s%d 2 2 NULL" % (
                     entry, marg, i))
             ev.append(dict(what="add", line=ln, kind=kind, n=n, lo=lo, hi=hi,
-                           entry=entry))
+                           entry=entry, flavour=flavour, make=lnp))
             if kind != "cover":
                 expect_set = False
-                badp = (kind, n, lo, hi)
+                badp = (kind, n, lo, hi, flavour)
                 if order == "add_first":
                     break      # one offender is enough for the set call
         if order == "add_first":
@@ -750,7 +774,8 @@ def work_rg(chunk_id, payload):
             ev.append(dict(what="set", line=ln, kind="cover" if expect_set
                            else badp[0], n=badp[1] if badp else 0,
                            lo=badp[2] if badp else fmin,
-                           hi=badp[3] if badp else fmax, entry="-"))
+                           hi=badp[3] if badp else fmax, entry="-",
+                           flavour=badp[4] if badp else "vector", make=None))
         # noise vectors (need the frequency vector)
         nzev = []
         if (order == "freq_first" or expect_set) and ctype not in ("T16", "U16"):
@@ -798,9 +823,22 @@ def work_rg(chunk_id, payload):
             e = res.ev(d["line"])
             if e is None or "ret" not in e:
                 break
+            if d["make"] is not None:
+                em = res.ev(d["make"])
+                if em is None or not isinstance(em.get("ret"), int) or \
+                        em["ret"] < 0:
+                    if em is not None:
+                        bad("parameter-refused:%s" % d["flavour"],
+                            "valid %s parameter (%d ascending frequencies "
+                            "%r..%r) refused: %s" % (d["flavour"], d["n"],
+                                                     d["lo"], d["hi"], em))
+                    break
             part["evaluations"] += 1
             fn = "vnacal_new_add" if d["what"] == "add" else \
                 "vnacal_new_set_frequency_vector"
+            if d["flavour"] == "correlated":
+                fn += "[correlated-sigma-grid]"
+                bump(part, "rg_correlated_sigma_decisions")
             judged = (order == "freq_first") or d["what"] == "set"
             if not judged:
                 # add before the frequency vector: nothing to compare with yet
@@ -814,10 +852,15 @@ def work_rg(chunk_id, payload):
             bump(part, "rg_range_decisions")
             bump(part, "rg:%s:%s" % (order, d["kind"]))
             part["distinct"].add(("rg", order, d["kind"], d["n"], F,
+                                  d["flavour"],
                                   d["entry"] if d["what"] == "add" else "set"))
-            info = "%s, band %r..%r (%d points), parameter grid %r..%r " \
-                   "(%d knots), order %s" % (ctype, fmin, fmax, F, d["lo"],
-                                             d["hi"], d["n"], order)
+            info = "%s, band %r..%r (%d points), %s %r..%r " \
+                   "(%d points), order %s" % (
+                       ctype, fmin, fmax, F,
+                       "sigma frequency vector of a correlated parameter"
+                       if d["flavour"] == "correlated" else
+                       "vector parameter grid", d["lo"], d["hi"], d["n"],
+                       order)
             if d["kind"] == "cover":
                 if e.get("ret") != 0:
                     bad("covering-range-refused:%s" % fn,
@@ -1074,7 +1117,7 @@ def work_pk(chunk_id, payload):
         scale = 10.0 ** rng.uniform(-3, 10)
         lo = scale * rng.uniform(1, 3)
         hi = lo * rng.uniform(1.3, 8) if n > 1 else lo
-        knots = knot_vector(rng, n, lo, hi)
+        knots = knot_vector(rng, n, lo, hi, 0.2)
         law = Rational(rng, ORDERS[m], lo, hi, 0.0, 1.0)
         vals = law(knots)
         q = list(knots) + between_points(rng, knots, per=1)
@@ -1170,11 +1213,11 @@ def main():
     binary = chk.build("asan")
     quick = chk.tier == "quick"
     sc = chk.args.scale
-    plan = [("pv", 16 if quick else 64, int((250 if quick else 3000) * sc)),
-            ("ap", 16 if quick else 64, int((30 if quick else 600) * sc)),
-            ("rg", 16 if quick else 64, int((120 if quick else 1600) * sc)),
-            ("nz", 16 if quick else 64, int((20 if quick else 400) * sc)),
-            ("pk", 8 if quick else 16, int((200 if quick else 4000) * sc))]
+    plan = [("pv", 16 if quick else 64, int((250 if quick else 1600) * sc)),
+            ("ap", 16 if quick else 64, int((30 if quick else 300) * sc)),
+            ("rg", 16 if quick else 64, int((120 if quick else 800) * sc)),
+            ("nz", 16 if quick else 64, int((20 if quick else 200) * sc)),
+            ("pk", 8 if quick else 16, int((200 if quick else 2000) * sc))]
     payloads = []
     for kind, nch, per in plan:
         if ONLY and kind not in ONLY.split(","):
@@ -1198,7 +1241,9 @@ def main():
              "network whose terms are A g(f)+B with g rational of the window's "
              "order, standards partly given as vector parameters on their own "
              "covering grids, applied between and on grid points, requests "
-             ">= 5% outside the band refused. rg: vector standards and noise "
+             ">= 5% outside the band refused. rg: vector standards, correlated "
+             "standards (scalar or unknown correlate, so that only the sigma "
+             "frequency vector limits the range) and noise "
              "vectors covering / missing the band by >= 5% at the low, high or "
              "both ends, through six add entry points, parameter used before "
              "or after vnacal_new_set_frequency_vector. nz: linear noise laws "
